@@ -14,3 +14,21 @@ def hex! (s : String) : List Nat := (parseHex s).getD []
 def joinWith (sep : String) (l : List String) : String := String.intercalate sep l
 
 end Ec.Drv
+
+namespace Ec.Drv
+
+partial def ioLoop (handle : List String → String) (h out : IO.FS.Stream) : IO Unit := do
+  let line ← h.getLine
+  if line.isEmpty then return ()
+  match line.trimAscii.toString.splitOn " " with
+  | _ :: args => out.putStrLn (handle args)
+  | [] => out.putStrLn "bad-case"
+  ioLoop handle h out
+
+/-- One case per line on stdin (first token = property key, ignored), one answer per line on stdout. -/
+def runDriver (handle : List String → String) : IO Unit := do
+  let out ← IO.getStdout
+  ioLoop handle (← IO.getStdin) out
+  out.flush
+
+end Ec.Drv
